@@ -1172,7 +1172,7 @@ Proof.
       apply (cstep_preserves_contents dbg (sel a st) o id b b' HIa (sop_ok_cli _ _ Hop) Hf Hf'); [|assumption].
       intros Hw. apply Hnw. cbn [swrites]. split; [reflexivity|]. split; [rewrite Et; discriminate|assumption].
     + rewrite sstep_cli_none in * by assumption. cbn [fst] in *. rewrite Hf in Hf'. inversion Hf'; subst. reflexivity.
-  - cbn [sstep fst reinit] in Hf'. destruct a; cbn [sel ss0 ss1] in Hf'; rewrite init_arena_eq in Hf'; discriminate.
+  - cbn [sstep fst] in Hf'. unfold reinit in Hf'. destruct a; cbn [sel ss0 ss1] in Hf'; rewrite init_arena_eq in Hf'; discriminate.
 Qed.
 
 (* ---------- the generated wiring ---------- *)
@@ -1192,17 +1192,17 @@ Proof. reflexivity. Qed.
 
 Lemma cli_script_expands p : expand w0 cli_script p = Some (cli_shape p).
 Proof.
-  unfold cli_script, cli_shape. cbn. rewrite <- !app_assoc. reflexivity.
+  unfold cli_script, cli_shape. cbn. reflexivity.
 Qed.
 
 Lemma wasm_script_expands p : expand w0 wasm_script p = Some (cli_shape p).
 Proof.
-  unfold wasm_script, cli_shape. cbn. rewrite <- !app_assoc. reflexivity.
+  unfold wasm_script, cli_shape. cbn. reflexivity.
 Qed.
 
 Lemma lib_script_expands p : expand w0 lib_script p = Some (lib_shape p).
 Proof.
-  unfold lib_script, lib_shape. cbn. rewrite <- !app_assoc. reflexivity.
+  unfold lib_script, lib_shape. cbn. reflexivity.
 Qed.
 
 Definition phase_ok (p : phase_ops) : Prop :=
@@ -1289,5 +1289,111 @@ Proof.
       * split; [discriminate|]. intros H. exfalso. apply H. cbn [app]. apply in_or_app. right. apply has_errors_In. assumption.
       * split; [|reflexivity]. intros _ H. cbn [app] in H. apply in_app_or in H.
         destruct H as [H|H]; apply has_errors_In in H; congruence.
-  - split; [discriminate|]. intros H. exfalso. apply H. left. symmetry. apply Hp. left. reflexivity.
+  - split; [discriminate|]. intros H. exfalso. apply H. left. apply Hp. left. reflexivity.
+Qed.
+
+(* ---------- the concrete pipelines ---------- *)
+
+Lemma nrun_cli_other dbg a l : forall st, (forall o, In o l -> exists op, o = SCli a op) ->
+  sel (negb a) (nrun dbg st l) = sel (negb a) st.
+Proof.
+  induction l as [|o l IH]; intros st H; cbn [nrun fold_left]; [reflexivity|].
+  destruct (H o (or_introl eq_refl)) as (op & ->).
+  unfold nrun in IH. rewrite IH by (intros o' Ho'; apply H; right; assumption).
+  unfold nstep. destruct (norm st (SCli a op)) as [o'|] eqn:En; [|reflexivity].
+  cbn [norm] in En. destruct (top_of a (ss_bors st)); [|discriminate].
+  destruct (norm_cli (sel a st) b op); [|discriminate]. cbn [option_map] in En. inversion En; subst.
+  apply (sstep_other_arena dbg st (SCli a o)).
+Qed.
+
+Lemma nrun_cons dbg st o l : nrun dbg st (o :: l) = nrun dbg (fst (nstep dbg st o)) l.
+Proof. reflexivity. Qed.
+
+Lemma nstep_borrow dbg st c : nstep dbg st (SBorrow c) = sstep dbg st (SBorrow c).
+Proof. reflexivity. Qed.
+
+Lemma nstep_drop dbg st : nstep dbg st SDrop = sstep dbg st SDrop.
+Proof. reflexivity. Qed.
+
+Lemma drop_step dbg st b rest :
+  ss_bors st = b :: rest ->
+  ss_bors (fst (sstep dbg st SDrop)) = rest /\
+  aoff (sel (bo_arena b) (fst (sstep dbg st SDrop))) = bo_mark b /\
+  sel (negb (bo_arena b)) (fst (sstep dbg st SDrop)) = sel (negb (bo_arena b)) st.
+Proof.
+  intros Hb. cbn [sstep]. rewrite Hb. cbn [fst ss_bors]. rewrite !sel_rebuild, sel_upd_same, sel_upd_other.
+  split; [reflexivity|]. split; [apply drop_arena_off|reflexivity].
+Qed.
+
+Lemma in_map_cli a l o : In o (map (SCli a) l) -> exists op, o = SCli a op.
+Proof. intros H. apply in_map_iff in H. destruct H as (x & <- & _). eauto. Qed.
+
+(* After the whole CLI / playground wiring — whatever the three phases allocate, grow,
+   write, reset (normalised to the discipline) — no borrow is live and both scratch
+   arenas are back at offset 0; the invariant (hence disjointness of all live blocks and
+   the protection of outer blocks) holds after every prefix. *)
+Lemma cli_pipeline_clean dbg b0 b1 cap p :
+  phase_ok p ->
+  let st := nrun dbg (sinit b0 b1 cap) (cli_shape p) in
+  ss_bors st = [] /\ aoff (ss0 st) = 0 /\ aoff (ss1 st) = 0.
+Proof.
+  intros Hp st. subst st. unfold cli_shape.
+  set (s0 := sinit b0 b1 cap).
+  cbn [app]. rewrite nrun_cons, nstep_borrow.
+  set (s1 := fst (sstep dbg s0 (SBorrow CNone))).
+  assert (B1 : ss_bors s1 = [mkBor false 0 0]) by reflexivity.
+  rewrite nrun_app. set (s2 := nrun dbg s1 (map (SCli false) (po_parse p))).
+  assert (B2 : ss_bors s2 = [mkBor false 0 0]).
+  { subst s2. rewrite nrun_cli_bors; [assumption|]. intros o Ho. destruct (in_map_cli _ _ _ Ho) as (op & ->). eauto. }
+  assert (O2 : aoff (sel true s2) = 0).
+  { subst s2. change true with (negb false). rewrite nrun_cli_other by (apply in_map_cli). reflexivity. }
+  rewrite nrun_cons, nstep_borrow. set (s3 := fst (sstep dbg s2 (SBorrow (CScratch false)))).
+  assert (B3 : exists n1, ss_bors s3 = [mkBor true 0 n1; mkBor false 0 0]).
+  { subst s3. cbn [sstep fst ss_bors choose]. rewrite B2, O2. eauto. }
+  destruct B3 as (n1 & B3).
+  rewrite nrun_app. set (s4 := nrun dbg s3 (role_ops true false (po_resolve p))).
+  assert (B4 : ss_bors s4 = [mkBor true 0 n1; mkBor false 0 0]).
+  { subst s4. rewrite nrun_cli_bors; [assumption|]. apply role_ops_shape. }
+  rewrite nrun_cons, nstep_borrow. set (s5 := fst (sstep dbg s4 (SBorrow (CScratch false)))).
+  assert (B5 : exists m2 n2, ss_bors s5 = [mkBor true m2 n2; mkBor true 0 n1; mkBor false 0 0]).
+  { subst s5. cbn [sstep fst ss_bors choose]. rewrite B4. eauto. }
+  destruct B5 as (m2 & n2 & B5).
+  rewrite nrun_app. set (s6 := nrun dbg s5 (role_ops false true (po_run p))).
+  assert (B6 : ss_bors s6 = [mkBor true m2 n2; mkBor true 0 n1; mkBor false 0 0]).
+  { subst s6. rewrite nrun_cli_bors; [assumption|]. apply role_ops_shape. }
+  rewrite !nrun_cons, !nstep_drop. cbn [nrun fold_left].
+  destruct (drop_step dbg s6 _ _ B6) as (B7 & _ & _). set (s7 := fst (sstep dbg s6 SDrop)) in *.
+  destruct (drop_step dbg s7 _ _ B7) as (B8 & O8 & _). set (s8 := fst (sstep dbg s7 SDrop)) in *.
+  destruct (drop_step dbg s8 _ _ B8) as (B9 & O9 & E9). set (s9 := fst (sstep dbg s8 SDrop)) in *.
+  cbn [bo_arena bo_mark negb sel] in *.
+  refine (conj B9 (conj O9 _)). rewrite E9. exact O8.
+Qed.
+
+Lemma lib_pipeline_clean dbg b0 b1 cap p :
+  phase_ok p ->
+  let st := nrun dbg (sinit b0 b1 cap) (lib_shape p) in
+  ss_bors st = [] /\ aoff (ss0 st) = 0 /\ aoff (ss1 st) = 0.
+Proof.
+  intros Hp st. subst st. unfold lib_shape.
+  set (s0 := sinit b0 b1 cap).
+  cbn [app]. rewrite !nrun_cons, !nstep_borrow.
+  set (s2 := fst (sstep dbg (fst (sstep dbg s0 (SBorrow CNone))) (SBorrow (CScratch false)))).
+  assert (B2 : ss_bors s2 = [mkBor true 0 0; mkBor false 0 0]) by reflexivity.
+  rewrite !nrun_app.
+  set (s3 := nrun dbg (nrun dbg (nrun dbg s2 (map (SCli false) (po_parse p))) (role_ops false false (po_resolve p)))
+                  (role_ops false true (po_run p))).
+  assert (B3 : ss_bors s3 = [mkBor true 0 0; mkBor false 0 0]).
+  { subst s3. rewrite !nrun_cli_bors; [assumption| | |]; intros o Ho;
+      [destruct (in_map_cli _ _ _ Ho) as (op & ->); eauto|eapply role_ops_shape; eassumption|eapply role_ops_shape; eassumption]. }
+  rewrite !nrun_cons, !nstep_drop. cbn [nrun fold_left].
+  destruct (drop_step dbg s3 _ _ B3) as (B4 & O4 & _). set (s4 := fst (sstep dbg s3 SDrop)) in *.
+  destruct (drop_step dbg s4 _ _ B4) as (B5 & O5 & E5). set (s5 := fst (sstep dbg s4 SDrop)) in *.
+  cbn [bo_arena bo_mark negb sel] in *.
+  refine (conj B5 (conj O5 _)). rewrite E5. exact O4.
+Qed.
+
+Lemma pipeline_prefix_inv dbg b0 b1 cap l1 l2 :
+  Forall sop_ok (l1 ++ l2) -> SInv (nrun dbg (sinit b0 b1 cap) l1).
+Proof.
+  intros H. apply nrun_inv; [apply sinit_inv|]. apply Forall_app in H. tauto.
 Qed.
